@@ -9,7 +9,7 @@
    6 bitwise_or, 7 bitwise_and, 8 bitwise_xor).  [np_reduce] (Spec/NpReduce.v) is NumPy's
    ufunc.reduce on the dense meaning [den x]. *)
 From Coq Require Import ZArith List Bool Permutation.
-From Verif Require Import Py PyReduce Shape COO COOP GCXS NpReduce Reduce ReduceLemmas ReduceKernelP ReduceP.
+From Verif Require Import Py PyReduce Shape COO COOP GCXS NpReduce Reduce ReduceLemmas ReduceKernelP ReduceP ReduceGcxsP.
 Import ListNotations.
 Open Scope Z_scope.
 
@@ -117,9 +117,62 @@ Theorem reduce_den_z : forall m, valid_code m -> forall (x : coo Z) ax kd,
 Proof. exact reduce_den_z_proof. Qed.
 Print Assumptions reduce_den_z.
 
-(* Full statement for GCXS (same as reduce_den with gcxs_reduce / gden): FALSE of the code as it
-   stands for two classes of axis tuples, see the two refutations; the clauses gcxs_axes_nonempty
-   and gcxs_axes_distinct of Model/Reduce.v exclude exactly them. *)
+(* GCXS.  Full statement: as reduce_den with gcxs_reduce and the dense meaning gden g, for every
+   axis argument.  It is FALSE of the code as it stands for two classes of axis tuples (see the two
+   refutations below); the proved part excludes exactly them by the clauses gcxs_axes_nonempty
+   (`axis[0]` on the empty tuple raises IndexError) and gcxs_axes_distinct (a repeated axis is
+   silently accepted).  [gcxs_ok g]: the entries of g denote distinct in-range positions
+   (executable form gcxs_okb, checked on every generated case; it follows from gcxs_wfb). *)
+Theorem gcxs_reduce_den_partial :
+  forall (V : Type) (veqb : V -> V -> bool), (forall a b, veqb a b = true <-> a = b) ->
+  forall (op : V -> V -> V), (forall a b c, op a (op b c) = op (op a b) c) -> (forall a b, op a b = op b a) ->
+  forall (cast : V -> V), (forall a b, cast (op (cast a) (cast b)) = op (cast a) (cast b)) ->
+  forall (sup : option (V -> Z -> V)) (ident : option V),
+    (forall s f, sup = Some s -> s f 1 = cast f) ->
+    (forall s f k, sup = Some s -> 1 <= k -> s f (k + 1) = op (s f k) (cast f)) ->
+  forall (g : gcxs V) (ax : axis_arg) (keepdims : bool),
+    gcxs_ok V g -> shape_ok (g_shape g) -> g_shape g <> [] ->
+    (forall nax, norm_axes (zlen (g_shape g)) ax = Ok nax -> gcxs_axes_ok nax = true) ->
+    match gcxs_reduce V veqb op cast sup ident ax keepdims g with
+    | Ok r =>
+      exists osh gg, np_reduce V op cast ident ax keepdims (g_shape g) (gden g) = Ok (osh, gg) /\
+        rres_shape r = osh /\ (forall oix, in_range osh oix -> gg oix = Ok (rres_den r oix)) /\
+        rres_wf V veqb r
+    | Raise e =>
+      e = ValueError /\
+      (np_reduce V op cast ident ax keepdims (g_shape g) (gden g) = Raise ValueError
+       \/ admissible V veqb op cast sup (g_fill g) = false)
+    end.
+Proof. exact gcxs_reduce_den_proof. Qed.
+Print Assumptions gcxs_reduce_den_partial.
+
+Theorem gcxs_generated_is_model : forall m, valid_code m -> forall ax kd g,
+  gcxs_reduce_z m ax kd g =
+  gcxs_reduce Z Z.eqb (op_z m) (ufunc_cast m) (sup_z m) (ufunc_ident m) ax kd g.
+Proof. exact gcxs_reduce_z_eq. Qed.
+Print Assumptions gcxs_generated_is_model.
+
+Theorem gcxs_reduce_den_z_partial : forall m, valid_code m -> forall (g : gcxs Z) ax (kd : bool),
+  gcxs_ok Z g -> shape_ok (g_shape g) -> g_shape g <> [] ->
+  (forall nax, norm_axes (zlen (g_shape g)) ax = Ok nax -> gcxs_axes_ok nax = true) ->
+  match gcxs_reduce_z m ax kd g with
+  | Ok r =>
+    exists osh gg,
+      np_reduce Z (op_z m) (ufunc_cast m) (ufunc_ident m) ax kd (g_shape g) (gden g) = Ok (osh, gg) /\
+      rres_shape r = osh /\ (forall oix, in_range osh oix -> gg oix = Ok (rres_den r oix)) /\
+      rres_wf Z Z.eqb r
+  | Raise e =>
+    e = ValueError /\
+    (np_reduce Z (op_z m) (ufunc_cast m) (ufunc_ident m) ax kd (g_shape g) (gden g) = Raise ValueError
+     \/ adm_z m (g_fill g) = false)
+  end.
+Proof. exact gcxs_reduce_den_z_proof. Qed.
+Print Assumptions gcxs_reduce_den_z_partial.
+
+Theorem gcxs_okb_sound : forall (g : gcxs Z), gcxs_okb g = true -> gcxs_ok Z g.
+Proof. exact (@gcxs_okb_spec Z). Qed.
+Print Assumptions gcxs_okb_sound.
+
 Theorem gcxs_axes_nonempty_refuted :
   exists (g : gcxs Z) (ax : axis_arg),
     gcxs_wfb g = true /\
@@ -139,6 +192,12 @@ Print Assumptions gcxs_axes_distinct_refuted.
 (* ------------------------------------------------------------------ examples: the hypotheses are satisfiable *)
 Example ex_input_canonical : canonical Z ex_x /\ shape_ok (c_shape ex_x).
 Proof. exact ex_x_canonical. Qed.
+
+Example ex_gcxs :
+  gcxs_ok Z ex_g2 /\ shape_ok (g_shape ex_g2) /\
+  gcxs_reduce_z 0 (AxTuple [1; 0]) true ex_g2 = Ok (RArr (mkCOO [1; 1] [[0; 0]] [8] 0)) /\
+  gcxs_reduce_z 3 (AxInt (-1)) false ex_g2 = Ok (RArr (mkCOO [2] [[0]; [1]] [1; 5] 0)).
+Proof. exact ex_gcxs_proof. Qed.
 
 Example ex_sum : reduce_coo_z 0 (AxTuple [-1; 0]) false ex_x = Ok (RArr (mkCOO [3] [[0]; [1]; [2]] [11; 13; 14] 12)).
 Proof. exact ex_sum_proof. Qed.
